@@ -8,5 +8,6 @@ CONSTANTS
   TD <- ToDec
   NT <- NumText
   NTL <- NumTextLocBug
+  CV <- Convert
 INVARIANTS LawDecLocRoundTrip
 CHECK_DEADLOCK FALSE
